@@ -207,9 +207,22 @@ fn families(thorough: bool) -> Vec<Family> {
 fn check_case(subject: &dyn Subject, text: &str, fails: &mut Vec<(String, String, Cfg)>, calls: &mut u64) {
     let erroneous = syntax::parse(text).erroneous();
     let mut first_ok: Option<String> = None;
+    // the grid of width x indent extremes with the default blank-line bound, then the extremes of
+    // blank_lines_upper_bound and of reorder_import_items at two widths
+    let mut cfgs: Vec<Cfg> = vec![];
     for &w in &EXTREME_WIDTHS {
         for &t in &EXTREME_TABS {
-            let cfg = Cfg { max_width: w, tab_spaces: t, reorder: false, blank: 2 };
+            cfgs.push(Cfg { max_width: w, tab_spaces: t, reorder: false, blank: 2 });
+        }
+    }
+    for w in [0usize, 80] {
+        for blank in [0usize, 1, usize::MAX] {
+            cfgs.push(Cfg { max_width: w, tab_spaces: 2, reorder: true, blank });
+        }
+    }
+    {
+        for cfg in cfgs {
+            let (w, t) = (cfg.max_width, cfg.tab_spaces);
             *calls += 1;
             match guarded(|| subject.format(text, &cfg)) {
                 Err(m) => {
@@ -221,7 +234,7 @@ fn check_case(subject: &dyn Subject, text: &str, fails: &mut Vec<(String, String
                         fails.push(("accepted-erroneous-input".into(), format!("returned {} for a text with syntax errors", esc(&o)), cfg));
                         return;
                     }
-                    if w == 80 && t == 2 {
+                    if w == 80 && t == 2 && cfg.blank == 2 {
                         first_ok = Some(o);
                     }
                 }
